@@ -28,7 +28,7 @@ impl IntoParallelSource for Range<u64> {
     type Iter = Range<u64>;
 
     fn generate_iterator(self, index: CoordUInt, peers: CoordUInt) -> Self::Iter {
-        let n = self.end - self.start;
+        let n = self.end.saturating_sub(self.start);
         let chunk_size = (n.saturating_add(peers - 1)) / peers;
         let start = self.start.saturating_add(index * chunk_size);
         let end = (start.saturating_add(chunk_size))
@@ -45,17 +45,14 @@ macro_rules! impl_into_parallel_source_range {
             type Iter = Range<$t>;
 
             fn generate_iterator(self, index: CoordUInt, peers: CoordUInt) -> Self::Iter {
-                let index: i64 = index.try_into().unwrap();
-                let peers: i64 = peers.try_into().unwrap();
-                let n = self.end as i64 - self.start as i64;
-                let chunk_size = (n.saturating_add(peers - 1)) / peers;
-                let start = (self.start as i64).saturating_add(index * chunk_size);
-                let end = (start.saturating_add(chunk_size))
-                    .min(self.end as i64)
-                    .max(self.start as i64);
+                let (index, peers) = (index as i128, peers as i128);
+                let (first, last) = (self.start as i128, self.end as i128);
+                let n = (last - first).max(0);
+                let chunk_size = (n + peers - 1) / peers;
+                let end = (first + (index + 1) * chunk_size).min(last).max(first);
+                let start = (first + index * chunk_size).min(end);
 
-                let (start, end) = (start.try_into().unwrap(), end.try_into().unwrap());
-                start..end
+                (start as $t)..(end as $t)
             }
         }
     };
